@@ -2,7 +2,10 @@
 PROP = "C12"
 LEVEL = "other"
 EXPLANATION = 'bounded stand-in: exhaustive operation sequences on a real dispatcher against a registration-log model'
-TARGETS = []
+from pyvc.contracts import REG as R
+from . import event_contracts as ec
+R.opaque_hook = ec.opaque_listener
+TARGETS = [ec.DD, ec.AL]
 LEMMAS = []
 try:
     from .C12_bounded import bounded, BOUNDED_RULE  # noqa: F401
